@@ -249,6 +249,18 @@ pub(crate) fn selected_sheet_after_move(selected: u32, from: u32, to: u32) -> u3
     }
 }
 
+/// Given the index of the currently selected sheet, returns the index that same
+/// sheet occupies after the worksheet at `deleted` is removed from a workbook
+/// with `sheet_count` sheets. If the selected sheet is the one being deleted the
+/// sheet that takes its place is selected (the previous one if it was the last).
+pub(crate) fn selected_sheet_after_delete(selected: u32, deleted: u32, sheet_count: u32) -> u32 {
+    if selected > deleted || (selected == deleted && selected + 1 >= sheet_count) {
+        selected.saturating_sub(1)
+    } else {
+        selected
+    }
+}
+
 impl<'a> Debug for UserModel<'a> {
     fn fmt(&self, f: &mut std::fmt::Formatter<'_>) -> std::fmt::Result {
         f.debug_struct("UserModel").finish()
@@ -635,14 +647,13 @@ impl<'a> UserModel<'a> {
     pub fn delete_sheet(&mut self, sheet: u32) -> Result<(), String> {
         let old_data = Box::new(self.model.workbook.worksheet(sheet)?.clone());
         let sheet_count = self.model.workbook.worksheets.len() as u32;
-
         // This fails if it is the only sheet: nothing must be recorded in that case
         self.model.delete_sheet(sheet)?;
 
-        // If we deleted the last sheet we need to change the selected sheet
-        if sheet == sheet_count - 1 && sheet_count > 1 {
+        // The selection follows the selected sheet across the deletion
+        if sheet_count > 1 {
             if let Some(view) = self.model.workbook.views.get_mut(&self.model.view_id) {
-                view.sheet = sheet_count - 2;
+                view.sheet = selected_sheet_after_delete(view.sheet, sheet, sheet_count);
             };
         }
 
